@@ -111,7 +111,7 @@ func (g *scopeGen) funcBody(head string) {
 }
 
 func (g *scopeGen) stat() {
-	k := g.r.Intn(26)
+	k := g.r.Intn(28)
 	if g.depth >= 4 && k >= 12 && k <= 20 {
 		k = g.r.Intn(10)
 	}
@@ -210,6 +210,32 @@ func (g *scopeGen) stat() {
 		g.line(g.gpool[g.r.Intn(3)] + " = " + g.exp(1))
 	case 22:
 		g.line("print(" + g.useName() + ", " + g.useName() + ")")
+	case 26:
+		// closures in the limit and the step of a numeric for (several lines each)
+		n := g.name()
+		p1, p2 := g.name(), g.name()
+		g.line("for " + n + " = 1, (function(" + p1 + ")")
+		g.line("  return " + p1 + " + " + g.exp(0))
+		g.line("end)(2), (function(" + p2 + ")")
+		g.line("  return " + p2 + " + " + g.exp(0))
+		g.line("end)(1) do")
+		mark := len(g.locals)
+		g.locals = append(g.locals, n)
+		g.block(g.body())
+		g.locals = g.locals[:mark]
+		g.line("end")
+	case 27:
+		// a closure inside the target of an assignment and another one as its value
+		t := g.useName()
+		if t == "print" {
+			t = "G1"
+		}
+		p1, p2 := g.name(), g.name()
+		g.line(t + "[(function(" + p1 + ")")
+		g.line("  return " + p1)
+		g.line("end)(1)] = function(" + p2 + ")")
+		g.line("  return " + p2 + " + " + g.exp(0))
+		g.line("end")
 	case 24:
 		// assignment through an index whose key is not a constant: prefix and key are uses
 		t, kx := g.useName(), g.useName()
